@@ -669,22 +669,7 @@ class MQTTProtocol(MQTTBaseProtocol):
         '''
        
         # Cancel Alarms first
-        for _, request in self.factory.windowSubscribe[self.addr].items():
-            if request.alarm is not None:
-                request.alarm.cancel()
-                request.alarm = None
-        for _, request in self.factory.windowUnsubscribe[self.addr].items():
-            if request.alarm is not None:
-                request.alarm.cancel()
-                request.alarm = None
-        for _, request in self.factory.windowPublish[self.addr].items():
-            if request.alarm is not None:
-                request.alarm.cancel()
-                request.alarm = None
-        for _, request in self.factory.windowPubRelease[self.addr].items():
-            if request.alarm is not None:
-                request.alarm.cancel()
-                request.alarm = None
+        self.doCancelAlarms()
         # SUBSCRIBE/UNSUBSCRIBE requests are never resumed on a later connection,
         # so they fail with the connection whatever the session mode
         for k in list(self.factory.windowSubscribe[self.addr]):
@@ -698,5 +683,19 @@ class MQTTProtocol(MQTTBaseProtocol):
         # Then, invoke errbacks anyway if we do not persist state
         if self._cleanStart:
             self._purgeSession(reason)
+
+    # --------------------------------------------------------------------------
+
+    def doCancelAlarms(self):
+        '''
+        Cancel the retransmission alarms of everything in flight.
+        '''
+        for window in (self.factory.windowSubscribe[self.addr], self.factory.windowUnsubscribe[self.addr],
+                       self.factory.windowPublish[self.addr], self.factory.windowPubRelease[self.addr]):
+            for _, request in window.items():
+                if request.alarm is not None:
+                    if request.alarm.active():  # an acknowledged request may still be in its window
+                        request.alarm.cancel()
+                    request.alarm = None
 
 __all__ = [ "MQTTProtocol" ]
